@@ -17,7 +17,7 @@ META = {
                   "typelib.graph.TypeNode", "typelib.py.refs.forwardref/evaluate", "typelib.py.inspection.unwrap/args/get_type_hints/qualname"],
     "bounds": {
         "quick": "every directed graph over 3 synthesised dataclasses (9 adjacency bits), two edge kinds per graph drawn from "
-                 "{C, Optional[C], list[C], dict[str, C]} (assigned by edge parity), root C0 bare or inside list / Optional / dict[str, .]; "
+                 "{C, Optional[C], list[C], dict[str, C], None | C} (assigned by edge parity), root C0 bare or inside list / Optional / dict[str, .]; "
                  "naming / flavour variants {plain, a class nested in another, two classes of the same name in different modules, NamedTuple classes with string annotations} on a third "
                  "of the graphs; input forms {type, 'string', ForwardRef, NewType, alias, NewType of NewType, NewType of alias, alias of NewType, repeated call} on the 512 single-kind graphs",
         "thorough": "4 classes with out-degree <= 2 (partitioned), all edge-kind pairs",
@@ -25,7 +25,7 @@ META = {
     "assumptions": ["member relation of the reference model: generic arguments of a subscripted type, field annotations of a class"],
 }
 
-KINDS = ("C", "Optional[C]", "list[C]", "dict[str,C]")
+KINDS = ("C", "Optional[C]", "list[C]", "dict[str,C]", "None|C")
 
 
 def _d(*xs):
@@ -33,7 +33,7 @@ def _d(*xs):
 
 
 def wrap_kind(k, c):
-    return (c, t.Optional[c], list[c], dict[str, c])[k]
+    return (c, t.Optional[c], list[c], dict[str, c], None | c)[k]  # the last one is a PEP 604 union written None-first
 
 
 _COUNTER = [0]
@@ -79,7 +79,7 @@ def _synth_namedtuple(n, adj, ka, kb, ma, mb):
     """The same graph over typing.NamedTuple classes (tuple subclasses: a stdlib base) with string annotations
     resolved in the synthetic module."""
     ma.typing = t
-    kinds_src = ("{c}", "typing.Optional[{c}]", "list[{c}]", "dict[str, {c}]")
+    kinds_src = ("{c}", "typing.Optional[{c}]", "list[{c}]", "dict[str, {c}]", "None | {c}")
     placeholders = [type(f"C{i}", (), {}) for i in range(n)]  # only to compute the reference member relation
     cls = []
     for i in range(n):
@@ -245,7 +245,7 @@ def make_topo(n, container, ka, timeout, quick=True, seed=0):
         ch = Chooser([p[f"c{i}"] for i in range(4)])
         with NoTracing():
             bits = ch.pick(2 ** nb)
-            kb = (ka + ch.pick(2) * (1 + seed % 3)) % 4 if quick else ch.pick(4)
+            kb = (ka + ch.pick(2) * (1 + seed % 4)) % 5 if quick else ch.pick(5)
             naming = 0
             adj = [bool((bits >> i) & 1) for i in range(nb)]
             if bits % (5 if quick else 3) == 0:
@@ -310,6 +310,41 @@ def make_forms(n, ka, timeout):
     return Cond(f"forms/n{n}/{KINDS[ka]}", [(f"c{i}", int) for i in range(3)], body, mode="E3", timeout=timeout)
 
 
+def make_rebind(ka, timeout):
+    """The same qualified names rebound to new class objects (module reload / notebook re-run): the graph of the
+    new classes must denote the *new* classes at every deferred node."""
+
+    def body(**p):
+        from typelib import graph
+
+        ch = Chooser([p[f"c{i}"] for i in range(3)])
+        with NoTracing():
+            bits = ch.pick(512)
+            adj = [bool((bits >> i) & 1) for i in range(9)]
+            reached()
+            saved = _COUNTER[0]
+            out = None
+            for round_ in (0, 1):
+                _COUNTER[0] = 10 ** 6 + ka  # same module name in both rounds
+                cls, members, mods = synth(3, adj, ka, ka, 0)
+                try:
+                    try:
+                        nodes = [*graph.itertypes(cls[0])]
+                    except Exception as e:  # noqa: BLE001
+                        out = ("graph_raised:" + type(e).__name__, "rebind", _d(adj, e))
+                        break
+                    r = check_order(cls[0], nodes, members, "rebind/round%d" % round_)
+                    if r is not None:
+                        out = (r[0], "rebind:round%d" % round_, r[2])
+                        break
+                finally:
+                    cleanup(mods)
+            _COUNTER[0] = saved
+            return out
+
+    return Cond(f"rebind/{KINDS[ka]}", [(f"c{i}", int) for i in range(3)], body, mode="E3", timeout=timeout)
+
+
 def make_catalogue(timeout):
     """The catalogue annotations of U through the same invariants (member relation from typing.get_args / dataclass fields)."""
     from vlib import universe
@@ -350,8 +385,9 @@ def conditions(tier, seed):
     to = 90.0 if tier == "quick" else 300.0
     out = []
     for container in range(4):
-        for ka in range(4):
+        for ka in range(5):
             out.append(make_topo(3, container, ka, to, tier == "quick", seed))
-    out += [make_forms(3, ka, to) for ka in range(4)]
+    out += [make_forms(3, ka, to) for ka in range(5)]
+    out += [make_rebind(ka, to) for ka in (0, 1, 2)]
     out.append(make_catalogue(to))
     return out
